@@ -5,6 +5,7 @@ import (
 	"sort"
 	"strings"
 	"sync"
+	"sync/atomic"
 	"time"
 
 	"github.com/sheerbytes/sheerbytes/internal/peers"
@@ -57,53 +58,72 @@ func runHubHistory(script []hubAction) *hubRun {
 		}
 	}
 	for _, a := range script {
-		switch a.kind {
-		case "add":
-			r.add(a.sess, a.peer)
-			r.settle()
-		case "remove":
-			if c := r.conns[a.conn]; c != nil && !c.rmStarted {
-				pending = append(pending, r.startRemove(a.conn))
-			}
-		case "closesession":
-			busy := false
-			for _, t := range pending {
-				if t.kind == "closesession" && t.sess == a.sess {
-					busy = true
+		a := a
+		if !r.guarded(a.String(), func() {
+			switch a.kind {
+			case "add":
+				r.add(a.sess, a.peer)
+				r.settle()
+			case "remove":
+				if c := r.conns[a.conn]; c != nil && !c.rmStarted {
+					pending = append(pending, r.startRemove(a.conn))
+				}
+			case "closesession":
+				busy := false
+				for _, t := range pending {
+					if t.kind == "closesession" && t.sess == a.sess {
+						busy = true
+					}
+				}
+				if !busy {
+					pending = append(pending, r.startCloseSession(a.sess))
+				}
+			case "broadcast":
+				r.broadcast(a.sess, -1, 0)
+			case "bexcept":
+				r.broadcast(a.sess, a.peer, a.conn)
+			case "sendto":
+				r.sendTo(a.sess, a.peer, a.conn)
+			case "list":
+				r.list(a.sess)
+			case "permit":
+				r.permit(a.conn)
+			case "advance":
+				if len(pending) > 0 {
+					r.advance(pending[a.k%len(pending)])
 				}
 			}
-			if !busy {
-				pending = append(pending, r.startCloseSession(a.sess))
+			for _, t := range pending {
+				if t.t.panicked != nil {
+					r.panics = append(r.panics, fmt.Sprintf("%s: %v", t.name, t.t.panicked))
+					t.t.panicked = nil
+				}
 			}
-		case "broadcast":
-			r.broadcast(a.sess, -1, 0)
-		case "bexcept":
-			r.broadcast(a.sess, a.peer, a.conn)
-		case "sendto":
-			r.sendTo(a.sess, a.peer, a.conn)
-		case "list":
-			r.list(a.sess)
-		case "permit":
-			r.permit(a.conn)
-		case "advance":
-			if len(pending) > 0 {
-				r.advance(pending[a.k%len(pending)])
-			}
+			prune()
+			checkRoutable(a.String())
+		}) {
+			return r
 		}
 		for _, t := range pending {
-			if t.t.panicked != nil {
-				r.panics = append(r.panics, fmt.Sprintf("%s: %v", t.name, t.t.panicked))
-				t.t.panicked = nil
+			if t.t.hung && r.wedged == "" {
+				r.wedged = t.name + " (resumed by " + a.String() + ")"
 			}
 		}
-		prune()
-		checkRoutable(a.String())
+		if r.wedged != "" {
+			return r
+		}
 	}
 	// run everything to completion
-	for len(pending) > 0 {
-		r.advance(pending[0])
-		prune()
-	}
+	r.guarded("completion of the pending operations", func() {
+		for len(pending) > 0 {
+			r.advance(pending[0])
+			if pending[0].t.hung {
+				r.wedged = pending[0].name
+				return
+			}
+			prune()
+		}
+	})
 	return r
 }
 
@@ -185,6 +205,17 @@ func runHub(cfg config, prop string) *hx.Report {
 	id := 0
 	emit := func(script []hubAction, kind string) {
 		r := runHubHistory(script)
+		if r.wedged != "" {
+			// the hub no longer answers: every further call would block on its mutex
+			for _, c := range r.conns {
+				r.openGate(c)
+			}
+			rep.Evaluations++
+			rep.Count(kind)
+			rep.Violate("deadlock", fmt.Sprintf("%s never returned (hub wedged); recovered panics so far: %v; history %v then %v", r.wedged, r.panics, r.names, script),
+				map[string]any{"history": r.names, "script": fmt.Sprint(script), "stuck": r.wedged, "panics": r.panics})
+			return
+		}
 		final, leak := r.finalObservation()
 		r.cleanup()
 		id++
@@ -309,11 +340,18 @@ func runHub(cfg config, prop string) *hx.Report {
 		if cfg.tier == "thorough" {
 			dur = 5 * time.Second
 		}
-		panics, ops := hubStress(dur, cfg.seed)
+		panics, ops, first, stuck := hubStress(dur, cfg.seed)
 		rep.Distribution["stress-ops"] = ops
 		rep.Evaluations += ops
 		if panics > 0 {
-			rep.Violate("panic:send-on-closed-channel", fmt.Sprintf("%d recovered panics in a %v concurrent stress of Broadcast/BroadcastExcept/SendTo against Add/remove/CloseSession", panics, dur), map[string]any{"stress": dur.String(), "seed": cfg.seed})
+			sig := "panic:other"
+			if strings.Contains(first, "send on closed channel") {
+				sig = "panic:send-on-closed-channel"
+			}
+			rep.Violate(sig, fmt.Sprintf("%d recovered panics (first: %s) in a %v concurrent stress of Broadcast/BroadcastExcept/SendTo against Add/remove/CloseSession", panics, first, dur), map[string]any{"stress": dur.String(), "seed": cfg.seed, "first_panic": first})
+		}
+		if stuck > 0 {
+			rep.Violate("deadlock", fmt.Sprintf("%d of 8 stress goroutines never came back from a hub call within 20 s after the stress stopped (recovered panics: %d, first: %s)", stuck, panics, first), map[string]any{"stress": dur.String(), "seed": cfg.seed, "first_panic": first})
 		}
 	}
 	cf.Close()
@@ -334,17 +372,19 @@ func parenAll(xs []string) []string {
 
 func init() { runners["C11"] = runC11 }
 
-
 // hubStress runs unsynchronised goroutines against one hub and counts recovered panics.
-func hubStress(d time.Duration, seed uint64) (panics int, ops int) {
+func hubStress(d time.Duration, seed uint64) (panics int, ops int, first string, stuck int) {
 	h := peers.NewHub()
 	var mu sync.Mutex
 	stop := make(chan struct{})
 	var wg sync.WaitGroup
+	var running int64
 	worker := func(id int, f func(r *hx.Rand)) {
 		wg.Add(1)
+		atomic.AddInt64(&running, 1)
 		go func() {
 			defer wg.Done()
+			defer atomic.AddInt64(&running, -1)
 			r := hx.NewRand(seed*131 + uint64(id))
 			for {
 				select {
@@ -357,6 +397,9 @@ func hubStress(d time.Duration, seed uint64) (panics int, ops int) {
 						if p := recover(); p != nil {
 							mu.Lock()
 							panics++
+							if first == "" {
+								first = fmt.Sprint(p)
+							}
 							mu.Unlock()
 						}
 					}()
@@ -400,6 +443,17 @@ func hubStress(d time.Duration, seed uint64) (panics int, ops int) {
 	}
 	time.Sleep(d)
 	close(stop)
-	wg.Wait()
-	return
+	finished := make(chan struct{})
+	go func() { wg.Wait(); close(finished) }()
+	select {
+	case <-finished:
+	case <-time.After(20 * time.Second):
+		// some goroutine is blocked inside the hub for good (e.g. on its mutex)
+		mu.Lock()
+		stuck = int(atomic.LoadInt64(&running))
+		mu.Unlock()
+	}
+	mu.Lock()
+	defer mu.Unlock()
+	return panics, ops, first, stuck
 }
